@@ -23,6 +23,24 @@ CHECKS = {
  "C15": ("exploration", "property-based testing: merge-order model on true payload locations found by byte search",
          "The true storage location of each uniquely tagged sample is found by searching the mdat, independent of the tables; per-track order and the cross-track timestamp merge (video first on ties) are checked under four submission orders.",
          "Trusted: unique payload tags; ambiguous searches are skipped and counted.", "3/C15"),
+ "C04": ("exploration", "stateful property-based testing: generated call histories interpreted against a 3-valued executable reference model of docs/contract.md",
+         "Every call of every generated history is judged must-accept / must-reject(class set) / unconstrained by the model; accept, reject and error-naming clauses are checked. Unconstrained cases are counted, and the model then follows the implementation.",
+         "Trusted: the contract model in harness/src/contract.rs (appendix C of DESIGN.md).", "3/C04"),
+ "C05": ("exploration", "property-based testing: metamorphic relation (history vs history with its rejected calls deleted)",
+         "Decisions, statistics and output bytes of H and H-minus-rejected-calls must be identical, for the progressive and the fragmented muxer.",
+         "Purely differential; no model needed.", "3/C05"),
+ "C06": ("exploration", "property-based testing: recording sink + accounting model over histories with finish attempts anywhere",
+         "A sink that tags each write with the API call in progress shows that only the one successful finish writes; delivered bytes, frame counts, byte count and duration are recomputed independently.",
+         "Trusted: tick arithmetic; a lone sample's end may be pts+0 or pts+1.", "3/C06"),
+ "C07": ("exploration", "property-based testing: independent bitstream writers (AV1 sequence header per spec syntax, NAL/OBU builders) -> expected configuration record",
+         "The stsd entry of files and init segments is decoded per the codec bindings and compared with the structured value the keyframe was written from. Three mono_chrome signatures are listed open findings.",
+         "Trusted: the AV1 header writer in gen.rs follows spec section 5.5; VP9 uses muxide's documented accepted form.", "3/C07"),
+ "C10": ("exploration", "stateful property-based testing: op sequences against a queue model, every segment parsed, differential purity run",
+         "After every step the model queue, acceptance rule and sequence numbers are compared; each flushed segment is parsed and every sample located via data_offset.",
+         "Trusted: harness segment parser (tfhd/tfdt/trun).", "3/C10"),
+ "C11": ("exploration", "property-based testing: timeline relations inside and across generated segmentations",
+         "In-segment deltas, signed composition offsets, non-sync flags, base decode time monotonicity/non-overlap/constant origin and init byte-stability.",
+         "Constant-origin clause only judged for constant-interval input with >= 2 samples per segment, as the property states.", "3/C11"),
 }
 NOT_YET = {
 }
